@@ -487,6 +487,11 @@ func (ro *Roles) acceptEffects(r *Report, which map[string]bool) {
 			}
 		}
 	}
+	if which["shutdown-gate"] {
+		if _, ok := aggs["accept.shutdown-gate\x00"+fname+": shutting-down test first"]; !ok {
+			note("accept.shutdown-gate", fname+": shutting-down test first", false, w.Pos(fn.Pos()), "the accept function has no path that rejects a request because the runner is shutting down: requests issued after (or during) shutdown are accepted and left unfinished")
+		}
+	}
 	// snapshot of the definition in the job literal (C16.1 / C07.2)
 	if which["snapshot"] && jobAP != "" {
 		want := map[string]string{
